@@ -42,7 +42,7 @@ def op_strategy(draw):
     k = draw(st.sampled_from(["copy", "copy", "deep_copy", "view_res", "view_atom", "atoms_list", "move", "move_to",
                               "rotate", "set_pos", "set_vel", "set_ids", "set_resids", "rename", "atom_set",
                               "iter_set", "share_pos", "same_array", "inplace", "inplace", "read_center", "read_center",
-                              "copy_from", "copy_from", "construct", "bad_rotate", "bad_rotate"]))
+                              "copy_from", "copy_from", "construct", "bad_rotate", "bad_rotate", "system_again", "system_again"]))
     a = draw(st.integers(0, 30))
     b = draw(st.integers(0, 30))
     return [k, a, b, draw(gen.SEEDS), draw(st.sampled_from(FIELDS)), draw(st.booleans())]
@@ -181,6 +181,7 @@ def check(case):
         pool.append(Entry(obj, "mol", ids, groups, top_group, origin=origin))
 
     base_recs = spec_records(spec)
+    sysctx = None
     if case["source"] == "spec":
         add_molecule(build_molecule(spec), base_recs, new_top())
     elif case["source"] == "system":
@@ -209,9 +210,11 @@ def check(case):
         tg = new_top()
         k = 0
         for inst in range(case["ninst"]):
-            mol = lib("system-index", syst.__getitem__, inst)
+            # (the last instance through its negative index)
+            mol = lib("system-index", syst.__getitem__, inst if inst < case["ninst"] - 1 or case["seed"] % 2 else -1)
             add_molecule(mol, parsed[k:k + len(base_recs)], tg)
             k += len(base_recs)
+        sysctx = (syst, parsed, len(base_recs), tg)
     else:
         tg = new_top()
         given = build_molecule(spec)
@@ -305,6 +308,14 @@ def check(case):
                     pos_of = {c: i for i, c in enumerate(src.cells)}
                     groups = [[ids[pos_of[c]] for c in g] for g in src.groups]
                     pool.append(Entry(new, "mol", ids, groups, tg, origin=b % len(pool)))
+            elif kind == "system_again" and sysctx is not None and len(pool) < 14:
+                # the System is asked again for an instance it handed out before (by either index): what comes back is
+                # the file's molecule, whatever was done to the one handed out earlier
+                syst_, parsed_, nrec_, tg_ = sysctx
+                inst = a % case["ninst"]
+                idx = inst - case["ninst"] if flag else inst
+                again = lib("system-index", syst_.__getitem__, idx)
+                add_molecule(again, parsed_[inst * nrec_:(inst + 1) * nrec_], tg_)
             elif kind == "view_res" and e.kind == "mol" and len(pool) < 14:
                 k = b % len(e.groups)
                 pool.append(Entry(o.residues[k], "res", list(e.groups[k]), owner=ei))
